@@ -102,6 +102,11 @@ def hist (s : H) (h : Hist) : List Op → Hist
   | [] => h
   | op :: ops => hist (step s op).1 ((op, (step s op).2) :: h) ops
 
+/-- The model as an acceptor of recorded answers (used on concurrent histories): the next state
+if `r` is the model's answer to `op`. -/
+def accept (s : H) (op : Op) (r : Resp) : Option H :=
+  if (step s op).2 = r then some (step s op).1 else none
+
 /-- The model's log after `ops` from the initial state (newest event first). -/
 def logOf (ops : List Op) : Hist := hist init [] ops
 
